@@ -10,6 +10,8 @@ re-writes the three files with their own contig sets:
   bam_only_contig    a BAM contig (with primary alignments) that the FASTA lacks
   contig_sets        random subsets of four contigs as BAM header / FASTA keys, reads incl. secondary / supplementary records
   gene_two_chroms    exon-only GTF (gene / transcript records inferred by gffutils) with one gene_id on two chromosomes
+  dup_exon_line      a reference transcript whose GTF lists one exon line twice (two annotation files concatenated)
+  overlap_exons      a reference transcript whose exon records overlap: (a, b), (b - 50, c)
   control            the same data with equal contig sets and a clean annotation
 
 Everything random comes from the seed.
@@ -32,6 +34,9 @@ class Scenario:
         self.complete_genedb = True
         self.with_annotation = True
         self.shared_gene = None      # gene id used on two chromosomes
+        self.exon_lines = {}         # tid -> exon records as written (default: the transcript's exon list)
+        self.bad_exon_tx = None      # (tid, 'dup' | 'overlap'): the transcript whose exon records are malformed
+        self.clean_exons = {}        # tid -> exon list after the correction the input check offers (dup: first copies)
 
     # ---- views used by the validators
     def fasta_names(self):
@@ -67,7 +72,7 @@ def _gtf_lines(sc):
             attr = 'gene_id "%s"; transcript_id "%s";' % (g["gene_id"], tid)
             if sc.complete_genedb:
                 out.append('%s\tsyn\ttranscript\t%d\t%d\t.\t%s\t.\t%s' % (g["chr"], ex[0][0], ex[-1][1], g["strand"], attr))
-            for a, b in ex:
+            for a, b in sc.exon_lines.get(tid, ex):
                 out.append('%s\tsyn\texon\t%d\t%d\t.\t%s\t.\t%s' % (g["chr"], a, b, g["strand"], attr))
         for (c, gid, st, tid, s, e, cds) in sc.exonless:
             if gid != g["gene_id"] or c != g["chr"]:
@@ -159,6 +164,42 @@ def build(name, seed):
             a = rng.randint(200, 600)
             ds.add_gene("chr3", "GZ", "+", [("TZ", [(a, a + 200), (a + 400, a + 600)])])
             sc.bam = ["chr1", "chr2"]
+    elif name in ("dup_exon_line", "overlap_exons"):
+        # audit2-A F3: gene GU / TU (three exons, reads follow the true chain), a second clean gene on chr2; the GTF of TU
+        # repeats one exon line / widens one exon into its neighbour.  Either strand, either complete or exon-only GTF.
+        ds.add_chrom("chr1", 30000)
+        ds.add_chrom("chr2", 20000)
+        o = rng.randint(0, 400)
+        strand = rng.choice("+-")
+        e = [(2001 + o, 2300 + o), (2601 + o, 3000 + o), (3501 + o, 3800 + o)]
+        if rng.random() < 0.5:
+            e.append((4201 + o, 4500 + o))
+        sc.complete_genedb = rng.random() < 0.7
+        tail = {"polya": 25} if strand == "+" else {"polyt": 25}
+        k = rng.randrange(len(e) - 1)
+        if name == "dup_exon_line":
+            j = rng.randrange(len(e))
+            written = e[:j + 1] + [e[j]] + e[j + 1:] if rng.random() < 0.6 else e + [e[j]]
+            ds.add_gene("chr1", "GU", strand, [("TU", e)])
+            sc.bad_exon_tx = ("TU", "dup")
+            sc.clean_exons["TU"] = e
+        else:
+            # exon k+1 starts inside exon k
+            written = list(e)
+            written[k + 1] = (e[k][1] - rng.randint(0, 60), e[k + 1][1])
+            ds.add_gene("chr1", "GU", strand, [("TU", written)], plant=False)
+            ds.plant_sites("chr1", [(e[i][1] + 1, e[i + 1][0] - 1) for i in range(len(e) - 1)], strand)
+            sc.bad_exon_tx = ("TU", "overlap")
+        if strand == "-" and rng.random() < 0.5:
+            written = written[::-1]           # Ensembl lists the exons of a '-' transcript in descending order
+        sc.exon_lines["TU"] = written
+        for i in range(rng.randint(6, 9)):
+            ds.read_from_exons("u%d" % i, "chr1", e, **tail)
+        p = rng.randint(0, 300)
+        t3 = [(500 + p, 800 + p), (1200 + p, 1500 + p)]
+        ds.add_gene("chr2", "GB", "-", [("TB1", t3)])
+        for i in range(rng.randint(5, 8)):
+            ds.read_from_exons("d%d" % i, "chr2", t3, polyt=25)
     elif name == "bam_only_contig":
         # unspliced reads on two contigs; the FASTA holds the first one only
         sc.with_annotation = False
@@ -214,7 +255,81 @@ def build(name, seed):
     return sc
 
 
-SCENARIOS = ["control", "exonless", "ann_only_chrom", "fasta_only_chrom", "bam_only_contig", "contig_sets", "gene_two_chroms"]
+SCENARIOS = ["control", "exonless", "ann_only_chrom", "fasta_only_chrom", "bam_only_contig", "contig_sets", "gene_two_chroms",
+             "dup_exon_line", "overlap_exons"]
+
+
+# ------------------------------------------------------------------------------------------------------------------
+# exon lines for the input annotation check (check_gtf_duplicates): duplicated lines, overlapping / nested / touching exons,
+# equal coordinates in different transcripts, one transcript id on two sequences, any line order
+
+
+def exon_line_case(rng):
+    """-> dict(lines=[(seq, tid, start, end)...] in file order, records=bool (gene / transcript records written))
+    seq in 1..2, tid small; most transcripts are clean (sorted disjoint exons), then anomalies are injected"""
+    nseq = rng.choice([1, 1, 2])
+    records = rng.random() < 0.6
+    lines = []
+    tids = {}
+    ntx = rng.randint(1, 4)
+    for t in range(1, ntx + 1):
+        seq = rng.randint(1, nseq)
+        tid = t if (records or rng.random() < 0.7 or not tids) else rng.choice(list(tids))
+        if records and tid in tids:
+            continue
+        tids[tid] = seq
+        p = rng.choice([1, 1, 50, 900])
+        ex = []
+        for _ in range(rng.randint(1, 5)):
+            ln = rng.choice([1, 1, 5, 40, 300])
+            ex.append((p, p + ln - 1))
+            p += ln + rng.choice([0, 0, 1, 7, 120])        # gap 0 = touching exons (legal: they share no position)
+        r = rng.random()
+        if r < 0.25 and ex:
+            j = rng.randrange(len(ex))
+            for _ in range(rng.choice([1, 1, 2])):
+                ex.insert(rng.randint(0, len(ex)), ex[j])        # a line listed twice / three times
+        elif r < 0.5 and ex:
+            j = rng.randrange(len(ex))
+            a, b = ex[j]
+            kind = rng.choice(["into_next", "nested", "one_base", "same_start", "same_end"])
+            if kind == "into_next" and j + 1 < len(ex):
+                ex[j] = (a, ex[j + 1][0] + rng.randint(0, 3))
+            elif kind == "nested":
+                ex.insert(rng.randint(0, len(ex)), (a + (b - a) // 3, b - (b - a) // 3))
+            elif kind == "one_base":
+                ex.insert(rng.randint(0, len(ex)), (b, b + rng.randint(0, 4)))
+            elif kind == "same_start":
+                ex.insert(rng.randint(0, len(ex)), (a, b + 2))
+            else:
+                ex.insert(rng.randint(0, len(ex)), (max(1, a - 2), b))
+        if rng.random() < 0.3:
+            rng.shuffle(ex)
+        elif rng.random() < 0.2:
+            ex = ex[::-1]
+        lines += [(seq, tid, a, b) for a, b in ex]
+    if not records and rng.random() < 0.3:
+        rng.shuffle(lines)                                   # interleaved transcripts
+    return {"lines": lines, "records": records}
+
+
+def exon_line_gtf(case, strand="+"):
+    """GTF text of an `exon_line_case` (+ 1-based line number of every exon line)"""
+    out = []
+    where = []
+    seen = set()
+    for (seq, tid, a, b) in case["lines"]:
+        gid = "G%d_%d" % (seq, tid)
+        attr = 'gene_id "%s"; transcript_id "T%d";' % (gid, tid)
+        if case["records"] and (seq, tid) not in seen:
+            seen.add((seq, tid))
+            mine = [(x, y) for (s, t, x, y) in case["lines"] if (s, t) == (seq, tid)]
+            lo, hi = min(x for x, _ in mine), max(y for _, y in mine)
+            out.append('c%d\tsyn\tgene\t%d\t%d\t.\t%s\t.\tgene_id "%s";' % (seq, lo, hi, strand, gid))
+            out.append('c%d\tsyn\ttranscript\t%d\t%d\t.\t%s\t.\t%s' % (seq, lo, hi, strand, attr))
+        out.append('c%d\tsyn\texon\t%d\t%d\t.\t%s\t.\t%s' % (seq, a, b, strand, attr))
+        where.append(len(out))
+    return "\n".join(out) + "\n", where
 
 
 # ------------------------------------------------------------------------------------------------------------------
@@ -301,3 +416,26 @@ def run_annotation_gtf(ra):
                 for a, b in t["cds"]:
                     out.append('%s\tsyn\tCDS\t%d\t%d\t.\t%s\t0\t%s' % (c, a, b, g["strand"], attr))
     return "\n".join(out) + "\n"
+
+
+def exon_line_gff3(case, strand="+"):
+    """GFF3 text of an `exon_line_case` whose transcript ids sit on one sequence each (gene / mRNA records with ID, exon
+    records with Parent only) + 1-based line number of every exon line; None when a transcript id is used on two sequences"""
+    where_tid = {}
+    for (seq, tid, a, b) in case["lines"]:
+        if where_tid.setdefault(tid, seq) != seq:
+            return None, None
+    out = ["##gff-version 3"]
+    where = []
+    seen = set()
+    for (seq, tid, a, b) in case["lines"]:
+        if tid not in seen:
+            seen.add(tid)
+            mine = [(x, y) for (s, t, x, y) in case["lines"] if t == tid]
+            lo, hi = min(x for x, _ in mine), max(y for _, y in mine)
+            out.append('c%d\tsyn\tgene\t%d\t%d\t.\t%s\t.\tID=G%d_%d;gene_id=G%d_%d' % (seq, lo, hi, strand, seq, tid, seq, tid))
+            out.append('c%d\tsyn\tmRNA\t%d\t%d\t.\t%s\t.\tID=T%d;Parent=G%d_%d;transcript_id=T%d;gene_id=G%d_%d'
+                       % (seq, lo, hi, strand, tid, seq, tid, tid, seq, tid))
+        out.append('c%d\tsyn\texon\t%d\t%d\t.\t%s\t.\tParent=T%d' % (seq, a, b, strand, tid))
+        where.append(len(out))
+    return "\n".join(out) + "\n", where
